@@ -45,8 +45,14 @@ class _Engine:
 
     def execute(self, scn):
         from sim import env
-        with env.fp_env(scn.get('fperr', 'ignore')):
-            return self._m.execute(scn)
+        with env.fp_env(scn.get('fperr', 'ignore')) as rec:
+            o = self._m.execute(scn)
+        if rec is not None and isinstance(o, dict):
+            # reach: configured = the run had numpy's default environment, fired = a floating-point RuntimeWarning was actually emitted in it
+            hit = any(issubclass(w.category, RuntimeWarning) and 'encountered' in str(w.message) for w in rec)
+            f = o.setdefault('faults', {})
+            f['fp_warning_environment'] = [1, int(hit)]
+        return o
 
 
 def engine_for(prop):
